@@ -152,6 +152,7 @@ class World {
 
   // OOM injection for the next bus_iterate: fail allocation number k (counted from step start); -1 off
   int oom_at = -1;
+  int oom_gap = -1;                // hook H5: a second failure this many allocations after the first (-1: none)
   int oom_failures = 1;
   int last_alloc_count = 0;             // allocations made during the last bus_iterate (when measured)
   bool measure_allocs = false;
